@@ -412,7 +412,7 @@ func syntaxErrorOffset(err error) (int, bool) {
 
 var validFilters = []string{
 	`a:b`, `.name:Foo /size:4k`, `a:b AND c:d`, `a:b OR c:d`, `-a:b`, `*`, `(a:b)`, `a:(b OR c)`, `a:/re/`, `a:"b c"`, `"a b":c`, `-(a:b OR c:d) e:f`,
-	`.unit:ns/op`, `a:(/x/ OR "y z" OR w)`, `((a:b))`, `a:b -c:d *`, `.fullname:/^Foo/ goos:linux`, `/gomaxprocs:8`, `a:"\"q\""`,
+	`.unit:ns/op`, `a://`, `a:// b:c`, `-a://`, `a:(// OR x)`, `a:/[/]/`, `a:/]/`, `a:(/x/ OR "y z" OR w)`, `((a:b))`, `a:b -c:d *`, `.fullname:/^Foo/ goos:linux`, `/gomaxprocs:8`, `a:"\"q\""`,
 }
 var validProjections = []string{
 	`a`, `a,b`, `a b`, `.name`, `.fullname`, `.config`, `/size@num`, `a@alpha`, `a@(x y z)`, `"a b"@("x y" z)`, `.name,/size@num,goos@(linux darwin)`, `a@alpha, b@num c`, `.config@alpha`, `/gomaxprocs@num`,
@@ -462,7 +462,7 @@ func GenText(t *rapid.T) TextCase {
 
 var tKeys = []string{"a", ".name", ".fullname", "/size", "/gomaxprocs", "goos", ".unit", "a b", "é", "x-y", ".file"}
 var tVals = []string{"b", "Foo", "4k", "x y", "-v", "*", "a:b", "(x)", "AND", "", "é", "q q", "back\\", "ns/op", "8"}
-var tRegexps = []string{"^F", "oo$", "4k|1M", "[a-f]+", "s.c", "x y", "^(a|b)$"}
+var tRegexps = []string{"^F", "oo$", "4k|1M", "[a-f]+", "s.c", "x y", "^(a|b)$", "[/]x", "(a/b)+", `a\/b`, "a][/]b", "[^/]", "[[:alpha:]/]+"}
 
 func genTTree(t *rapid.T, depth int) *refexpr.Node {
 	if depth <= 0 || rapid.IntRange(0, 2).Draw(t, "leaf") == 0 {
